@@ -21,7 +21,7 @@ type Conn struct {
 
 var waitContext = context.Background()
 
-// maxWritePiece is the most that is written before the limiter is consulted again.
+// maxWritePiece is the most that is written for one payment to the limiter.
 const maxWritePiece = 32 * 1024
 
 // wait charges n bytes to the limiter. WaitN refuses more than the burst at once:
@@ -47,16 +47,15 @@ func (c *Conn) Write(b []byte) (n int, err error) {
 		return c.Conn.Write(b)
 	}
 
-	// The limiter is charged after the bytes have gone out: pass a large buffer on in pieces,
-	// otherwise all of it leaves at once whatever the limit.
+	// The limiter is paid before the bytes go out, piece by piece. Paid afterwards, the first
+	// write of every new connection would be free whatever the limiter's debt, and a peer that
+	// spreads its transfer over many short connections would not be limited at all.
 	for len(b) > 0 {
 		p := b[:min(len(b), maxWritePiece)]
+		wait(c.txLimiter, len(p))
 		var m int
 		m, err = c.Conn.Write(p)
 		n += m
-		if m > 0 {
-			wait(c.txLimiter, m)
-		}
 		if err != nil {
 			return
 		}
